@@ -105,6 +105,53 @@ func AdoptInputFor(r *Runner, pv *PassView, obj map[string]any, entry map[string
 		}
 		return r.StateAt(k, pv.P.FirstSeq)
 	})
+	// "... or one of its delegated phases": what counts is which ObjectSetPhase objects a previous revision controls, not
+	// only what its status says. A live phase object controlled by a declared previous revision is added when that revision
+	// has completed a pass without error since the phase object was created (so its status had the chance to name it - a
+	// status still carrying the uid of a deleted namesake is PKO's own stale bookkeeping).
+	for i := range in.Previous {
+		ps := &in.Previous[i]
+		if !ps.Exists {
+			continue
+		}
+		phaseKind := "ObjectSetPhase"
+		if ps.ID.Kind == "ClusterObjectSet" {
+			phaseKind = "ClusterObjectSetPhase"
+		}
+		for _, pk := range r.KeysAt(engine.PKOGroup, phaseKind, pv.P.FirstSeq) {
+			po := r.StateAt(pk, pv.P.FirstSeq)
+			cr, ok := engine.ControllerRef(po)
+			if po == nil || !ok || cr.UID != ps.ID.UID {
+				continue
+			}
+			listed := false
+			for _, rp := range ps.RemotePhases {
+				if rp.UID == engine.UID(po) {
+					listed = true
+				}
+			}
+			if listed {
+				continue
+			}
+			created := -1
+			for j, c := range r.W.Store.Trace {
+				if j >= pv.P.FirstSeq {
+					break
+				}
+				if c.Key == pk && c.Verb == "create" && c.Post != nil && engine.UID(c.Post) == engine.UID(po) {
+					created = j
+				}
+			}
+			for _, p2 := range r.W.Passes {
+				if created >= 0 && isSetController(p2.Controller) && p2.Req.Name == ps.ID.Name && p2.Req.Namespace == kubesim.MetaString(pv.Owner, "namespace") &&
+					p2.FirstSeq > created && p2.LastSeq <= pv.P.FirstSeq && p2.Err == "" && !p2.Crashed {
+					ps.RemotePhases = append(ps.RemotePhases, refmodel.RemotePhase{Name: pk.Name, UID: engine.UID(po)})
+					r.Labels["c01-restored-phase-object-of-previous-revision"] = true
+					break
+				}
+			}
+		}
+	}
 	return in
 }
 
